@@ -181,7 +181,7 @@ var fullDelivery = map[string]result{}
 func famFragmentation(t *lc) {
 	k := t.c.Choose(1+len(chunkClasses), "environment")
 	n := 0
-	for _, x := range t.values() {
+	for _, x := range t.faultValues() {
 		if x.o.a.rf == nil || !x.o.wbinOK {
 			continue
 		}
